@@ -306,6 +306,9 @@ func (vc *VC) applyContract(st *State, c *Contract, key string, sig *types.Signa
 		}
 	}
 	for _, en := range c.Ensures {
+		if usesCall(en.E, "callres") {
+			continue // internal clause about the callee's own call sites: not part of its interface
+		}
 		t, err := post.EvalBool(en.E)
 		if err != nil {
 			sfail("call %s: ensures %q: %v", key, en.Src, err)
@@ -661,6 +664,12 @@ func (vc *VC) invoke(st *State, c *ssa.CallCommon, args []Val, rt types.Type) Va
 	vc.oblige(st, "nil", "", not(eq(recv.If[0], "0")), "method call on nil interface")
 	ct, ok := vc.G.contracts.Funcs[key]
 	if !ok {
+		ct, ok = vc.G.contracts.Funcs["tls."+key]
+	}
+	if !ok {
+		if vc.assumedPure(c.Method.Name()) {
+			return vc.pureOpaqueResult(st, rt, c.Method.Name())
+		}
 		vc.opaqueCalls[key] = true
 		return vc.opaqueResult(st, rt, c.Method.Name())
 	}
@@ -821,7 +830,7 @@ func (vc *VC) appendBuiltin(st *State, c *ssa.CallCommon, args []Val, rt types.T
 		if srcIsStr {
 			srcAt = func(j Term) Term { return app("strat", src.S, j) }
 		} else {
-			srcAt = func(j Term) Term { return sel(sel(h, src.Sl[0]), app("+", src.Sl[1], j)) }
+			srcAt = func(j Term) Term { return sel(sel(h, src.Sl[0]), vc.ix(src.Sl[1], j)) }
 		}
 		inner := "(Array Int " + lf.Sort + ")"
 		if small >= 0 {
@@ -829,8 +838,8 @@ func (vc *VC) appendBuiltin(st *State, c *ssa.CallCommon, args []Val, rt types.T
 			inPlace := sel(h, s.Sl[0])
 			na := vc.fresh("appcopy")
 			vc.declare(na, inner)
-			vc.axiom(fmt.Sprintf("(forall ((i Int)) (! (=> (and (<= 0 i) (< i %s)) (= (select %s i) (select (select %s %s) (+ %s i)))) :pattern ((select %s i))))",
-				s.Sl[2], na, h, s.Sl[0], s.Sl[1], na))
+			vc.axiom(fmt.Sprintf("(forall ((i Int)) (! (=> (and (<= 0 i) (< i %s)) (= (select %s i) (select (select %s %s) %s))) :pattern ((select %s i))))",
+				s.Sl[2], na, h, s.Sl[0], vc.ix(s.Sl[1], "i"), na))
 			moved := Term(na)
 			for j := 0; j < small; j++ {
 				x := srcAt(num(int64(j)))
@@ -846,7 +855,7 @@ func (vc *VC) appendBuiltin(st *State, c *ssa.CallCommon, args []Val, rt types.T
 		vc.axiom(fmt.Sprintf("(forall ((a Int)) (! (=> (not (= a %s)) (= (select %s a) (select %s a))) :pattern ((select %s a))))", rArr, nh, h, nh))
 		// contents of the result array
 		i := "i"
-		oldAt := sel(sel(h, s.Sl[0]), app("+", s.Sl[1], app("-", i, rOff)))
+		oldAt := sel(sel(h, s.Sl[0]), vc.ix(s.Sl[1], app("-", i, rOff)))
 		inOld := and(app("<=", rOff, i), app("<", i, app("+", rOff, s.Sl[2])))
 		inNew := and(app("<=", app("+", rOff, s.Sl[2]), i), app("<", i, app("+", rOff, newLen)))
 		val := ite(inNew, srcAt(app("-", i, app("+", rOff, s.Sl[2]))), ite(inOld, oldAt, ite(fits, sel(sel(h, rArr), i), sel(sel(nh, rArr), i))))
@@ -895,7 +904,7 @@ func (vc *VC) copyBuiltin(st *State, c *ssa.CallCommon, args []Val, rt types.Typ
 		if srcIsStr {
 			srcAt = app("strat", src.S, rel)
 		} else {
-			srcAt = sel(sel(h, src.Sl[0]), app("+", src.Sl[1], rel))
+			srcAt = sel(sel(h, src.Sl[0]), vc.ix(src.Sl[1], rel))
 		}
 		in := and(app("<=", dst.Sl[1], i), app("<", i, app("+", dst.Sl[1], cnt)))
 		vc.axiom(fmt.Sprintf("(forall ((i Int)) (! (= (select (select %s %s) i) %s) :pattern ((select (select %s %s) i))))",
